@@ -27,7 +27,10 @@ RULE = ("cases: (pipeline, k, n, file/segment bytes, ordered list of k distinct 
         "MDMF) or codec (CRSEncoder/CRSDecoder directly).  Exhaustive: every k-subset for all 1<=k<=n<=5 (quick) / <=7 (thorough), "
         "each in ascending, descending and seeded shuffled order (thorough: every order for k<=4), block sizes 1..5 bytes, tail "
         "lengths on and off multiples of k.  Seeded: n in 6..64 and n in {128,255,256} with k in {1,2,n-1,n}.  distinct = distinct "
-        "(pipeline,k,n,ids,bytes); non-trivial = decode reached and returned bytes.  Plus codec parameter and splitting/padding/"
+        "(pipeline,k,n,ids,bytes); non-trivial = decode reached and returned bytes.  End to end (pipeline = grid): real uploads on the "
+        "in-process grid, 3-of-256, 2-of-255 and 3-of-10 in every run (thorough adds 1/2/255/256-of-256, 7-of-255, 16-of-64, 5-of-129), "
+        "then for a few k-subsets (k highest, k lowest, spread, seeded) only those shares are left on the servers and a fresh node "
+        "downloads.  Plus codec parameter and splitting/padding/"
         "trimming cases compared with the Coq model (data_size 0..3k+2 and around multiples of k, k in {1,2,3,7,16,100,255,256}).")
 META = {
     "title": "Erasure coding recovers from any k blocks",
@@ -338,8 +341,76 @@ def run_case(ctx, case, cache=None):
     return obs
 
 
+# ---------------------------------------------------------------------------------------------
+# end to end: real Uploader / real downloader on the in-process grid, top of the range included
+def grid_subsets(r, k, n, count):
+    subs = [list(range(n - k, n)), list(range(k)), sorted(set((j * (n - 1)) // max(1, k - 1) for j in range(k)))]
+    while len(subs) < count:
+        subs.append(sorted(r.sample(range(n), k)))
+    out = []
+    for x in subs:
+        if len(x) == k and x not in out:
+            out.append(x)
+    return out[:count]
+
+
+def grid_file(ctx, k, n, size, max_seg, seed, subsets, servers=10):
+    """Upload one k-of-n file through the real client, then for every subset leave
+    exactly those k shares on the servers and download with a fresh node."""
+    import random
+    from core import grid as G
+    data = random.Random(size * 7919 + k * 131 + n).randbytes(size)
+    base = {"pipeline": "grid", "k": k, "n": n, "size": size, "max_segment_size": max_seg, "seed": seed, "servers": servers}
+    results = []
+    with G.Grid(num_servers=servers, k=k, n=n, happy=1, max_segment_size=max_seg, seed=seed, timeout=120) as g:
+        out = g.run(lambda: g.upload(data, convergence=b"C36"), outcome=True)
+        ctx.case(("grid-up", k, n, size, max_seg), kind="grid-upload")
+        if out.status != "ok":
+            ctx.oracle_fail("erasure-grid-upload-fails", "%d-of-%d upload of %d bytes fails: %s %s" % (k, n, size, out.status, out.error),
+                            case=dict(base, subset=None), observed=str(out.failure)[-500:] if out.failure else out.hung_info)
+            return [("upload", out.status, out.error)]
+        cap = out.value
+        shares = g.find_shares(cap)
+        present = sorted(set(sh.shnum for sh in shares))
+        if present != list(range(n)):
+            ctx.oracle_fail("erasure-grid-shares-missing", "%d-of-%d upload placed shares %r" % (k, n, present), case=dict(base, subset=None))
+        saved = {sh: g.read_share(sh) for sh in shares}
+        for sub in subsets:
+            for sh, raw in saved.items():
+                if sh.shnum in sub:
+                    g.write_share(sh, raw)
+                elif os.path.exists(sh.path):
+                    g.delete_share(sh)
+            case = dict(base, subset=list(sub))
+            ctx.case(("grid-dl", k, n, size, max_seg, tuple(sub)), kind="grid-download-n%d" % n if n >= 255 else "grid-download")
+            o2 = g.run(lambda: g.download(cap), outcome=True)
+            if o2.status != "ok":
+                ctx.oracle_fail("erasure-grid-download-fails", "%d-of-%d file of %d bytes (segments of %d), only shares %r left on the servers: download %s %s" % (
+                    k, n, size, max_seg, list(sub), o2.status, o2.error), case=case, observed=str(o2.failure)[-500:] if o2.failure else o2.hung_info)
+            elif o2.value != data:
+                ctx.oracle_fail("erasure-decode-wrong-bytes", "%d-of-%d file of %d bytes, shares %r: downloaded bytes differ from the uploaded ones" % (k, n, size, list(sub)),
+                                case=case, expected=data[:64].hex(), observed=o2.value[:64].hex())
+            results.append((list(sub), o2.status, o2.error))
+    return results
+
+
+def oracle_grid(ctx):
+    """Whole pipeline incl. share files, UEB parsing and the downloader's own
+    parameter handling; N = 255 and N = 256 (top of the property's range) in every run."""
+    plan = [(3, 256, 112, 36, 4), (2, 255, 75, 26, 3), (3, 10, 112, 36, 3)]
+    if ctx.tier == "thorough" or ctx.search:
+        plan += [(1, 256, 60, 7, 3), (256, 256, 600, 256, 1), (255, 256, 800, 255, 3), (2, 256, 57, 1000, 3),
+                 (7, 255, 200, 49, 3), (16, 64, 300, 64, 4), (5, 129, 90, 20, 3)]
+    for i, (k, n, size, max_seg, count) in enumerate(plan):
+        r = ctx.rng("grid", i)
+        grid_file(ctx, k, n, size, max_seg, r.getrandbits(20), grid_subsets(r, k, n, count))
+
+
 def replay(ctx, record):
     case = record.get("case") or {}
+    if case.get("pipeline") == "grid":
+        subs = [case["subset"]] if case.get("subset") else []
+        return grid_file(ctx, case["k"], case["n"], case["size"], case["max_segment_size"], case["seed"], subs, case.get("servers", 10))
     if "pipeline" in case:
         return run_case(ctx, case)
     if "sizes" in case:
@@ -725,6 +796,7 @@ def corr_wrapper(ctx, all_terms, on_bad):
 def run(ctx):
     oracle_corpus(ctx)
     oracle_exhaustive(ctx)
+    oracle_grid(ctx)
     oracle_seeded(ctx)
     # both correspondences are evaluated by one round of coqc shards
     terms, on_bad = [], []
